@@ -278,8 +278,17 @@ class SSHKnownHosts:
             x509_subjects, revoked_subjects = self._match(host, addr, port)
 
         if port and not (host_keys or ca_keys or x509_certs or x509_subjects):
+            port_revoked_keys, port_revoked_certs, port_revoked_subjects = \
+                revoked_keys, revoked_certs, revoked_subjects
+
             host_keys, ca_keys, revoked_keys, x509_certs, revoked_certs, \
                 x509_subjects, revoked_subjects = self._match(host, addr)
+
+            # Keep revocations which were listed for this specific port
+            revoked_keys = list(revoked_keys) + list(port_revoked_keys)
+            revoked_certs = list(revoked_certs) + list(port_revoked_certs)
+            revoked_subjects = list(revoked_subjects) + \
+                list(port_revoked_subjects)
 
         return (host_keys, ca_keys, revoked_keys, x509_certs, revoked_certs,
                 x509_subjects, revoked_subjects)
